@@ -209,14 +209,18 @@ def get_facts(config="dev", repo=REPO, verbose=False):
         return outdir, {"hash": h, "cached": False, "wall_s": time.time() - t0}
 
 
-def _prune(keep=12):
+def _prune(keep=200, min_age_s=3600):
+    """Bound the fact cache (about 3 MB per analysed tree). Entries younger than an hour are never
+    removed: a concurrent check (self-test slots run in parallel) may still be reading them."""
     base = os.path.join(CACHE, "facts")
     try:
         ents = sorted((os.path.getmtime(os.path.join(base, d)), d) for d in os.listdir(base))
     except OSError:
         return
-    for _, d in ents[:-keep]:
-        shutil.rmtree(os.path.join(base, d), ignore_errors=True)
+    now = time.time()
+    for mt, d in ents[:-keep]:
+        if now - mt > min_age_s:
+            shutil.rmtree(os.path.join(base, d), ignore_errors=True)
 
 
 if __name__ == "__main__":
